@@ -1,50 +1,228 @@
-#include "kernel.h"
-#include <string.h>
+// simninja: batch runner, replay and shrinking for the simulated histories.
+#include <errno.h>
+#include <stdio.h>
 #include <stdlib.h>
+#include <string.h>
+#include <time.h>
+#include <unistd.h>
+#include <algorithm>
+#include <string>
+#include "world.h"
+
 using namespace sim;
 
-struct H : SpawnHandler {
-  ChildPlan OnSpawn(Kernel& k, const std::string& cmd, bool console) override {
-    ChildPlan p;
-    size_t o = cmd.find("-o ");
-    std::string out = o == std::string::npos ? "" : cmd.substr(o + 3);
-    ChildStep s1; s1.kind = ChildStep::kOutput; s1.at_ns = 1000000; s1.bytes = "hello from " + out + "\n";
-    ChildStep s2; s2.kind = ChildStep::kEffect; s2.at_ns = 2000000;
-    s2.fn = [out](Kernel& k, Child&) { if (!out.empty()) k.WriteFile(out, "X"); };
-    ChildStep s3; s3.kind = ChildStep::kExit; s3.at_ns = 3000000; s3.status = cmd.find("FAIL") != std::string::npos ? (3 << 8) : 0;
-    p.steps = {s1, s2, s3};
-    return p;
+namespace sim { int LogDriverMain(int argc, char** argv); }
+
+static uint64_t RunSeed(uint64_t verif_seed, uint64_t idx) {
+  uint64_t x = verif_seed;
+  return Rng::SplitMix(x) ^ (idx * 0x9e3779b97f4a7c15ull);
+}
+
+static std::string TapeJson(const Tape& t) {
+  std::string s = "{";
+  bool first = true;
+  for (auto& kv : t.rec) {
+    if (!first) s += ",";
+    first = false;
+    s += "\"" + std::to_string(kv.first) + "\":[";
+    for (size_t i = 0; i < kv.second.size(); i++) { if (i) s += ","; s += std::to_string(kv.second[i]); }
+    s += "]";
   }
-};
+  return s + "}";
+}
+
+// minimal reader for the replay file: finds "tape":{...}, "profile":"..", "tier":".."
+static bool ReadAll(const char* path, std::string* out) {
+  FILE* f = fopen(path, "rb");
+  if (!f) return false;
+  char buf[65536]; size_t n;
+  while ((n = fread(buf, 1, sizeof buf, f)) > 0) out->append(buf, n);
+  fclose(f);
+  return true;
+}
+static std::string JsonStr(const std::string& doc, const std::string& key) {
+  size_t p = doc.find("\"" + key + "\":");
+  if (p == std::string::npos) return "";
+  p = doc.find('"', p + key.size() + 3);
+  if (p == std::string::npos) return "";
+  size_t e = doc.find('"', p + 1);
+  return doc.substr(p + 1, e - p - 1);
+}
+static bool ParseTape(const std::string& doc, Tape* t) {
+  size_t p = doc.find("\"tape\":");
+  if (p == std::string::npos) return false;
+  p = doc.find('{', p);
+  size_t i = p + 1;
+  while (i < doc.size() && doc[i] != '}') {
+    if (doc[i] == '"') {
+      size_t e = doc.find('"', i + 1);
+      int stream = atoi(doc.substr(i + 1, e - i - 1).c_str());
+      size_t a = doc.find('[', e), b = doc.find(']', a);
+      std::vector<uint32_t>& v = t->rec[stream];
+      size_t j = a + 1;
+      while (j < b) {
+        char* end;
+        unsigned long x = strtoul(doc.c_str() + j, &end, 10);
+        if (end == doc.c_str() + j) break;
+        v.push_back((uint32_t)x);
+        j = end - doc.c_str();
+        if (doc[j] == ',') j++;
+      }
+      i = b + 1;
+    } else i++;
+  }
+  t->replay = true;
+  return true;
+}
+
+static void PrintRunLine(uint64_t idx, const RunResult& rr, bool with_decoded = false) {
+  std::string s = "{\"run\":" + std::to_string(idx) + ",";
+  if (with_decoded) s += "\"decoded\":\"" + JsonEscape(rr.decoded) + "\",";
+  s += "\"viol\":[";
+  for (size_t i = 0; i < rr.violations.size(); i++) {
+    if (i) s += ",";
+    s += "{\"prop\":\"" + rr.violations[i].prop + "\",\"cls\":\"" + rr.violations[i].cls + "\",\"msg\":\"" + JsonEscape(rr.violations[i].msg) + "\"}";
+  }
+  char b[128];
+  snprintf(b, sizeof b, "],\"sig\":\"%016llx\",\"hash\":\"%016llx\",\"inv\":%ld,\"spawns\":%ld,\"sim_ns\":%lld", (unsigned long long)rr.stats.sig,
+           (unsigned long long)rr.stats.full_hash, rr.stats.invocations, rr.stats.spawns, (long long)rr.stats.sim_ns);
+  s += b;
+  s += ",\"n\":{";
+  bool first = true;
+  for (auto& kv : rr.stats.n) { if (!first) s += ","; first = false; s += "\"" + kv.first + "\":" + std::to_string(kv.second); }
+  s += "},\"faults\":{";
+  first = true;
+  for (auto& kv : rr.stats.faults) { if (!first) s += ","; first = false; s += "\"" + kv.first + "\":" + std::to_string(kv.second); }
+  s += "},\"nontrivial\":[";
+  first = true;
+  for (auto& kv : rr.stats.nontrivial) if (kv.second) { if (!first) s += ","; first = false; s += "\"" + kv.first + "\""; }
+  s += "]}";
+  HPrintf("%s\n", s.c_str());
+  fflush(g_real_stdout);
+}
+
+static void WriteReplay(const std::string& path, const std::string& profile, const std::string& tier, uint64_t seed, uint64_t idx,
+                        const Tape& tape, const RunResult& rr, bool minimised) {
+  FILE* f = fopen(path.c_str(), "wb");
+  if (!f) return;
+  fprintf(f, "{\"profile\":\"%s\",\"tier\":\"%s\",\"seed\":%llu,\"run_index\":%llu,\"minimised\":%s,\n", profile.c_str(), tier.c_str(),
+          (unsigned long long)seed, (unsigned long long)idx, minimised ? "true" : "false");
+  fprintf(f, "\"violations\":[");
+  for (size_t i = 0; i < rr.violations.size(); i++)
+    fprintf(f, "%s{\"prop\":\"%s\",\"cls\":\"%s\",\"msg\":\"%s\"}", i ? "," : "", rr.violations[i].prop.c_str(), rr.violations[i].cls.c_str(),
+            JsonEscape(rr.violations[i].msg).c_str());
+  fprintf(f, "],\n\"trace_hash\":\"%016llx\",\n\"tape\":%s,\n\"decoded\":\"%s\"}\n", (unsigned long long)rr.stats.full_hash, TapeJson(tape).c_str(),
+          JsonEscape(rr.decoded).c_str());
+  fclose(f);
+}
+
+static bool HasViolation(const RunResult& rr, const std::string& prop, const std::string& cls) {
+  for (auto& v : rr.violations) if (v.prop == prop && (cls.empty() || v.cls == cls)) return true;
+  return false;
+}
+
+// Greedy tape minimisation: drop tail blocks, zero values, keeping the same
+// violation class of the same property.
+static Tape Shrink(const Tape& orig, const Profile& prof, const std::string& prop, const std::string& cls, int budget, int* reruns) {
+  Tape best = orig;
+  best.replay = true;
+  auto still = [&](Tape& cand) {
+    (*reruns)++;
+    cand.replay = true;
+    RunResult rr = RunOne(cand, prof);
+    return HasViolation(rr, prop, cls);
+  };
+  bool progress = true;
+  while (progress && *reruns < budget) {
+    progress = false;
+    for (auto& kv : orig.rec) {
+      int st = kv.first;
+      // 1. truncate the stream (exhausted tape reads as 0 = simplest choice)
+      for (size_t cut = 0; cut < best.rec[st].size() && *reruns < budget; ) {
+        Tape c = best;
+        size_t keep = cut;
+        if (keep >= c.rec[st].size()) break;
+        c.rec[st].resize(keep);
+        if (still(c)) { best = c; progress = true; break; }
+        cut = cut ? cut * 2 : 1;
+      }
+      // 2. zero individual values
+      for (size_t i = 0; i < best.rec[st].size() && *reruns < budget; i++) {
+        if (best.rec[st][i] == 0) continue;
+        Tape c = best;
+        c.rec[st][i] = 0;
+        if (still(c)) { best = c; progress = true; }
+      }
+    }
+  }
+  return best;
+}
 
 int main(int argc, char** argv) {
   GlobalInit();
-  int n = argc > 1 ? atoi(argv[1]) : 1;
-  for (int it = 0; it < n; it++) {
-    Kernel k;
-    Tape t; t.seed = 42 + it; k.tape = &t;
-    k.MkdirP("/w");
-    k.WriteFile("build.ninja",
-      "rule cc\n  command = sim $in -o $out\n"
-      "rule bad\n  command = sim FAIL -o $out\n"
-      "build a.o: cc a.c\nbuild b.o: cc b.c\nbuild app: cc a.o b.o\nbuild x: bad a.c\ndefault app\n");
-    k.WriteFile("a.c", "1"); k.WriteFile("b.c", "2");
-    H h;
-    const char* runs[][6] = {{"ninja", "-j4", nullptr}, {"ninja", "-j4", nullptr}, {"ninja", "x", nullptr}, {"ninja", "-t", "commands", nullptr}};
-    for (auto& r : runs) {
-      ProcSpec sp;
-      for (int i = 0; r[i]; i++) sp.argv.push_back(r[i]);
-      ProcResult res = k.RunNinja(sp, &h);
-      if (n == 1) {
-        HPrintf("--- end=%d exit=%d syscalls=%ld detail=%s\nstdout:\n%sstderr:\n%s", (int)res.end, res.exit_code,
-                (long)res.nsyscalls, res.end_detail.c_str(), res.out.c_str(), res.err.c_str());
-      }
-    }
-    if (n == 1) {
-      std::string log; k.ReadFile(".ninja_log", &log);
-      HPrintf("log:\n%s", log.c_str());
-      for (auto& kv : k.fs.nodes) HPrintf("  %s (%zu bytes, mtime %ld)\n", kv.first.c_str(), kv.second->data.size(), (long)kv.second->mtime);
-    }
+  if (argc < 2) { fprintf(stderr, "usage: simninja run|replay|shrink|logdrv ...\n"); return 2; }
+  std::string cmd = argv[1];
+  if (cmd == "logdrv") return LogDriverMain(argc - 1, argv + 1);
+  std::string profile = "C01", tier = "quick", outdir = "/tmp";
+  uint64_t seed = 1, first = 0, count = 1;
+  std::string file;
+  bool verbose = false, decoded_first = false;
+  for (int i = 2; i < argc; i++) {
+    std::string a = argv[i];
+    auto next = [&]() { return std::string(i + 1 < argc ? argv[++i] : ""); };
+    if (a == "--profile") profile = next();
+    else if (a == "--tier") tier = next();
+    else if (a == "--seed") seed = strtoull(next().c_str(), nullptr, 10);
+    else if (a == "--first") first = strtoull(next().c_str(), nullptr, 10);
+    else if (a == "--count") count = strtoull(next().c_str(), nullptr, 10);
+    else if (a == "--out-dir") outdir = next();
+    else if (a == "-v") verbose = true;
+    else if (a == "--decoded-first") decoded_first = true;
+    else file = a;
   }
-  return 0;
+  if (cmd == "run") {
+    Profile prof = GetProfile(profile, tier == "thorough");
+    for (uint64_t i = first; i < first + count; i++) {
+      Tape t;
+      t.seed = RunSeed(seed, i);
+      RunResult rr = RunOne(t, prof);
+      if (verbose) HPrintf("%s", rr.decoded.c_str());
+      if (!rr.violations.empty()) {
+        std::string path = outdir + "/replay_" + profile + "_" + std::to_string(seed) + "_" + std::to_string(i) + ".json";
+        WriteReplay(path, profile, tier, seed, i, t, rr, false);
+      }
+      PrintRunLine(i, rr, decoded_first && i == first);
+    }
+    return 0;
+  }
+  if (cmd == "replay" || cmd == "shrink") {
+    std::string doc;
+    if (!ReadAll(file.c_str(), &doc)) { fprintf(stderr, "cannot read %s\n", file.c_str()); return 2; }
+    Tape t;
+    if (!ParseTape(doc, &t)) { fprintf(stderr, "no tape in %s\n", file.c_str()); return 2; }
+    profile = JsonStr(doc, "profile");
+    tier = JsonStr(doc, "tier");
+    Profile prof = GetProfile(profile, tier == "thorough");
+    if (cmd == "replay") {
+      RunResult rr = RunOne(t, prof);
+      if (verbose) HPrintf("%s", rr.decoded.c_str());
+      PrintRunLine(0, rr);
+      return rr.violations.empty() ? 0 : 1;
+    }
+    std::string prop, cls;
+    for (int i = 2; i < argc; i++) {
+      if (!strcmp(argv[i], "--prop") && i + 1 < argc) prop = argv[i + 1];
+      if (!strcmp(argv[i], "--cls") && i + 1 < argc) cls = argv[i + 1];
+    }
+    int reruns = 0;
+    Tape m = Shrink(t, prof, prop, cls, 1500, &reruns);
+    m.replay = true;
+    RunResult rr = RunOne(m, prof);
+    std::string out = file + ".min.json";
+    WriteReplay(out, profile, tier, strtoull(JsonStr(doc, "seed").c_str(), nullptr, 10), 0, m, rr, true);
+    HPrintf("{\"shrunk\":\"%s\",\"reruns\":%d,\"still\":%s}\n", out.c_str(), reruns, HasViolation(rr, prop, cls) ? "true" : "false");
+    return 0;
+  }
+  fprintf(stderr, "unknown command %s\n", cmd.c_str());
+  return 2;
 }
